@@ -322,6 +322,14 @@ func (ps *sparser) parsePrimary() SExpr {
 			body := ps.parseExpr()
 			return &SQuant{t.val == "forall", vars, body}
 		}
+		if t.val == "map" && ps.isOp("[") {
+			// map type used as a type operand: map[K]V
+			ps.next()
+			k := ps.parseTypeText([]string{"]"})
+			ps.expectOp("]")
+			v := ps.parseTypeText([]string{"(", ",", ")"})
+			return &STypeExpr{"map[" + k + "]" + v}
+		}
 		return &SIdent{t.val}
 	case "op":
 		switch t.val {
@@ -342,7 +350,7 @@ func (ps *sparser) parsePrimary() SExpr {
 		case "[":
 			// slice type conversion: []byte(x)
 			ps.expectOp("]")
-			elem := ps.parseTypeText([]string{"("})
+			elem := ps.parseTypeText([]string{"(", ",", ")"})
 			return &STypeExpr{"[]" + elem}
 		}
 	}
